@@ -1694,6 +1694,14 @@ func c04Zoo() []c04ZooEntry {
 	add("defect-ptr-to-nil-ptr", func() **int { var a *int; return &a }())
 	add("defect-ptr-to-nil-slice", func() *[]string { var a []string; return &a }())
 	add("defect-media-empty-type", types.Media{})
+	add("defect-ptr-ptr-struct", func() **c04S1 { a := &c04S1{A: 1}; return &a }())
+	add("defect-ptr-ptr-array", func() **[2]string { a := &[2]string{"a", "b"}; return &a }())
+	add("defect-ptr-zero-ctime", &compact_time.Time{})
+	add("defect-ptr-iface-list", func() *interface{} { var i interface{} = []interface{}{1}; return &i }())
+	add("defect-big-float-wide", func() *big.Float {
+		f, _ := new(big.Float).SetPrec(200).SetString("1.234567890123456789012345678901234567890")
+		return f
+	}())
 	return z
 }
 
